@@ -74,7 +74,7 @@ pub fn from_iter<const N: usize, const P: u32, S: Src>(s: &mut S) {
     s.assume(k <= 2 * N + 1);
     cov!(k > N, "from_iter longer than the capacity");
     cov!(k < N, "from_iter shorter than the capacity");
-    let buf: CircularBuffer<N, Tok> = GenIter { next: 0x50, remaining: k }.collect();
+    let buf: CircularBuffer<N, Tok> = GenIter::with_hint(0x50, k, s).collect();
     let mut m = Model::new(N);
     let mut i = 0;
     while i < k {
